@@ -790,9 +790,8 @@ impl Session {
             b'S' => {
                 self.snap.skip = false;
                 if self.txn_snapshot.is_none() {
-                    // implicit transaction ends
+                    // implicit transaction ends: portals go, the unnamed statement stays
                     self.portals.clear();
-                    self.snap.stmts.remove("");
                 }
                 self.ready();
             }
